@@ -127,13 +127,21 @@ class Engine(object):
 
     # ------------------------------------------------------------------ decisions
     def _feasible(self, term):
+        """is pc /\ term satisfiable?  Asked in a forked child (the child inherits the incremental solver) so that a
+        solver that ignores its timeout cannot hang the exploration; no answer counts as feasible."""
         t0 = time.time()
-        self.solver.push()
-        self.solver.add(term)
-        r = self.solver.check()
-        self.solver.pop()
+
+        def run():
+            self.solver.push()
+            self.solver.add(term)
+            r = self.solver.check()
+            return [str(r), None, None]
+
+        res = _in_child(run, self.feas_timeout_ms / 1000.0 + 1.0)
         self.solver_time += time.time() - t0
-        return r != z3.unsat
+        if res is None or res[0] != "unsat":
+            return True
+        return False
 
     def decide(self, cond):
         """Truth value of a symbolic boolean on this path (forks)."""
@@ -399,6 +407,16 @@ def solve_vc(vc, timeout_ms=20000, want_model=True):
     goal = _mk_goal(vc)
     t0 = time.time()
     attempts = []
+    if _has_int(goal):
+        try:
+            from . import backends
+
+            g3 = backends.pin_ints(goal, _in_child)
+            if g3 is not None and not _has_int(g3):
+                attempts.append(("pin-ints", "ok"))
+                goal = g3
+        except z3.Z3Exception as e:
+            attempts.append(("pin-ints", "error:%s" % e))
     has_uf = _has_uf_or_int(goal)
     has_int = _has_int(goal)
     quick = ("z3", lambda: z3.Solver(), goal, True, min(1200, timeout_ms))
@@ -412,6 +430,15 @@ def solve_vc(vc, timeout_ms=20000, want_model=True):
                 ("z3-nlsat-ack", lambda: z3.Tactic("qfnra-nlsat").solver(), g2, False, timeout_ms)]
     else:
         plan = [quick]
+        try:
+            from . import backends
+
+            gbv = backends.int_goal_to_bv(goal)
+        except Exception:  # noqa
+            gbv = None
+        if gbv is not None:
+            # sat answers are not used (real-valued conjuncts were dropped); unsat carries over
+            plan = [("z3-int2bv", lambda: z3.Solver(), gbv, False, timeout_ms)] + plan
     plan.append(("z3-full", lambda: z3.Solver(), goal, True, timeout_ms))
     for tname, mk, g, sat_ok, budget in plan:
         r, model = _z3_attempt(g, mk, budget, want_model and sat_ok)
